@@ -22,6 +22,15 @@ observed at VarzMetric.__call__).  Each Sample event carries where the sample la
 the series of its key in VARZ_DATA before and after the call);
 (iv) scale: 2300-6500 distinct sources on one counter / rate metric with bystander services, IncRun
 events (runs of increments, expanded exactly by the spec), service-level aggregates at checkpoints.
+(v) several Varz classes: families that share attribute names under different _VARZ_BASE_NAMEs (`nattr`
+of the api scripts; _family_systematic: equal / different sources, every construction order, bound
+holders and class-level calls, same and different kinds behind a name) and the Varz classes of the
+library itself (_gen_lib: every VarzBase subclass found after importing the scales modules); a recording
+is logged under the full metric name of the class it was made through;
+(vi) boundary values: 0, 0.0, -0.0, False, negative, large and float-typed integers as increment / gauge
+value / sample on every recording path incl. "no amount given" and "nothing measured"
+(_boundary_systematic, 20 % of the random values); the dispatcher runs log recordings where the
+dispatcher makes them (VarzMetric.__call__), so a call that completes on one clock reading is a sample of 0.
 Direction A also replays behaviours with clock steps (Varz_sim_age.cfg, 1 unit = 150 s).
 Every verdict is VarzAbs's.
 """
@@ -46,6 +55,9 @@ ASSUMPTIONS = [
   'whatever their age; an implementation may keep or delete old reservoirs',
   'where a sample landed is observed by reading the series of the recorded key in VARZ_DATA before and after the call '
   '(retained samples, offered count); unreadable reservoirs are not judged (room = took = -1)',
+  'a recording is what the caller asked for: metric name = <_VARZ_BASE_NAME of the class used>.<attribute>, source and '
+  'value as passed (no value = the documented default 1); a recording call that raises is logged all the same (lost, '
+  'if the oracle says so).  Values stay integer-valued (0.0, -0.0, False, 3.0, -4.0, 100000.0 are); totals < 2^31 / 1000',
   'histories with thousands of sources are encoded with IncRun events (a run of increments in order, expanded exactly '
   'by the spec) and aggregated with the service-level selectors only (the statement defines per-service sums)',
   'the reservoir capacity is set through VarzReceiver._MAX_PERCENTILE_SIZE (2, 3 or the default 1000) and '
@@ -62,8 +74,10 @@ RULE = {'C18': 'systematic {same, fresh} object sequences x 6 metric kinds x sou
                'seeded random update/aggregate sequences, dispatcher end-to-end runs and TLC-simulated behaviours; '
                'idle-window histories (clock steps below/at/above MAX_AGG_AGE x aggregation passes inside the window x '
                'who resumes: the long-lived bound holder, holders of equal sources made before/after the window, unbound '
-               'and static forms), seeded random timed histories, socket-wrapper histories, and histories with '
-               '2300-6500 distinct sources on one counter/rate metric; '
+               'and static forms), seeded random timed histories, socket-wrapper histories, histories with '
+               '2300-6500 distinct sources on one counter/rate metric, boundary values (zero, negative, large, float-typed) '
+               'on every recording path, and 2-3 Varz classes sharing attribute names (harness-defined in every '
+               'construction order, and the classes of the library); '
                'non-trivial = at least one aggregate reported and some (metric, source tuple) recorded at least '
                'twice; distinct by canonical event list'}
 
@@ -78,17 +92,25 @@ TUPLE_POOL = [[1, 1, 1, 0], [1, 1, 2, 0], [0, 2, 0, 1], [2, 1, 0, 0], [0, 1, 0, 
 
 
 def models(prop, tier):
-  noeq = [
-    dict(module='Varz', cfg='Varz_noeq_series.cfg', expect_violation='NoSeriesViolation', workers=2,
-         what='counterexample generator: Source without __eq__ (identity keys) breaks C18.oneSeries'),
-    dict(module='Varz', cfg='Varz_noeq_gauge.cfg', expect_violation='NoGaugeViolation', workers=2,
-         what='counterexample generator: identity keys make the aggregator sum a gauge over duplicates (C18.gauge)'),
-    dict(module='Varz', cfg='Varz_noeq_pct.cfg', expect_violation='NoPctViolation', workers=2,
-         what='counterexample generator: identity keys downsample every duplicate reservoir to nothing (C18.percentileBounds)'),
-    dict(module='Varz', cfg='Varz_orphan.cfg', expect_violation='NoSeriesViolation', workers=2,
-         what='counterexample generator: Aggregate deletes reservoirs older than MAX_AGG_AGE while a bound holder '
-              'remembers its reservoir: the holder resumes into a reservoir VARZ_DATA no longer shows (C18.oneSeries)'),
-  ]
+  gen = dict(
+    series=dict(module='Varz', cfg='Varz_noeq_series.cfg', expect_violation='NoSeriesViolation', workers=2,
+                what='counterexample generator: Source without __eq__ (identity keys) breaks C18.oneSeries'),
+    gauge=dict(module='Varz', cfg='Varz_noeq_gauge.cfg', expect_violation='NoGaugeViolation', workers=2,
+               what='counterexample generator: identity keys make the aggregator sum a gauge over duplicates (C18.gauge)'),
+    pct=dict(module='Varz', cfg='Varz_noeq_pct.cfg', expect_violation='NoPctViolation', workers=2,
+             what='counterexample generator: identity keys downsample every duplicate reservoir to nothing (C18.percentileBounds)'),
+    orphan=dict(module='Varz', cfg='Varz_orphan.cfg', expect_violation='NoSeriesViolation', workers=2,
+                what='counterexample generator: Aggregate deletes reservoirs older than MAX_AGG_AGE while a bound holder '
+                     'remembers its reservoir: the holder resumes into a reservoir VARZ_DATA no longer shows (C18.oneSeries)'),
+    falsy=dict(module='Varz', cfg='Varz_falsy.cfg', expect_violation='NoViolation', workers=2,
+               what='counterexample generator: the class-level adapter takes a falsy amount for "none given": a counter '
+                    'bumped by 0 adds 1, a gauge set to 0 reports 1, a sample of 0 is kept as 1'),
+    shared=dict(module='Varz', cfg='Varz_shared.cfg', expect_violation='NoSumViolation', workers=2,
+                what='counterexample generator: bound metrics shared through one dictionary keyed (attribute name, '
+                     'source) across Varz classes: the class built second records into the first one\'s series (C18.sum)'),
+    sharedg=dict(module='Varz', cfg='Varz_sharedg.cfg', expect_violation='NoGaugeViolation', workers=2,
+                 what='the same with gauges (C18.gauge)'),
+  )
   ilq = dict(module='Varz', cfg='Varz_ilq.cfg', coverage=True, may_be_unused=['ClockTick'],
              what='counter+gauge+timer, 2 tuples, 3 updates landing between aggregator quanta')
   if tier == 'quick':
@@ -99,7 +121,7 @@ def models(prop, tier):
       dict(module='Varz', cfg='Varz_ageq.cfg', coverage=True, may_be_unused=['DoInc', 'DoSet', 'AggStepNext', 'AggStepAbort'],
            workers=8, what='timer, 2 tuples, 4 samples, clock steps of 1-2 units up to 3, MAX_AGG_AGE = 2 units: '
                            'reservoirs that go stale, are left out by Aggregate and resume'),
-    ] + noeq
+    ] + [gen[k] for k in ('series', 'orphan', 'falsy', 'shared')]
   return [
     dict(module='Varz', cfg='Varz_cg.cfg', what='counter+gauge, 3 tuples, 6 updates', timeout=2400),
     dict(module='Varz', cfg='Varz_ct3.cfg', what='rate+timer, 3 tuples, 5 updates, capacity 2', timeout=2400),
@@ -111,10 +133,11 @@ def models(prop, tier):
     dict(module='Varz', cfg='Varz_expire.cfg', timeout=2400,
          what='variant: Aggregate deletes stale reservoirs, every recording looks its series up (C18 holds: the oracle '
               'does not require old samples to be kept)'),
+    dict(module='Varz', cfg='Varz_zero.cfg', what='counter+gauge+timer with 0 among the increments, gauge values and samples'),
     dict(module='Varz', cfg='Varz_noeq_sum.cfg', what='identity keys: counter/rate sums are still right (C18.sum holds)'),
     dict(module='Varz', cfg='Varz_noeq_bound.cfg', expect_violation='Bounded', workers=2,
          what='counterexample generator: identity keys, series not bounded by distinct sources'),
-  ] + noeq
+  ] + [gen[k] for k in ('series', 'gauge', 'pct', 'orphan', 'falsy', 'shared', 'sharedg')]
 
 
 # ------------------------------------------------------------------ the real code, observed
@@ -146,6 +169,7 @@ class _Rig(object):
     self._obj_ix = {}      # id(object) -> obj id (objects are kept alive, so id() is unique)
     self.ev = []
     self.raised = 0
+    self.raised_rec = 0    # recording calls that raised
     loop.run_until_idle()  # greenlets started by the imports (timer queue worker) reach their first wait
 
   # --- naming
@@ -224,6 +248,41 @@ class _Rig(object):
     if post is None:
       return room, 0
     return room, (1 if (pre is None or post[:2] != pre[:2]) else 0)
+
+  def observe_metric_calls(self):
+    """Log every recording where it is made: at the call of a metric object (VarzMetric.__call__), with the
+    source and value the caller gave (no value / None = the documented default of 1), whatever the object does
+    with them afterwards.  Returns the function that undoes the patch."""
+    varz = self.varz
+    orig_call = varz.VarzMetric.__call__
+    rig = self
+    self.in_metric_call = 0
+
+    def call(self_, *args):
+      if rig.in_metric_call:
+        return orig_call(self_, *args)
+      src = getattr(self_, '_source', None)
+      name = self_._metric
+      if src is not None:
+        val = args[0] if args else None
+      else:
+        src, val = args[0], (args[1] if len(args) > 1 else None)
+      if val is None:
+        val = 1
+      kind = rig.kind_of_type(type(self_).VARZ_TYPE)
+      evname = 'Inc' if kind in ('counter', 'rate', 'aggtimer') else ('Set' if kind == 'gauge' else 'Sample')
+      pre = rig.series_state(name, src)
+      rig.in_metric_call += 1
+      try:
+        orig_call(self_, *args)
+      finally:
+        rig.in_metric_call -= 1
+      rig.log_update(evname, name, src, val, pre=pre)
+    varz.VarzMetric.__call__ = call
+
+    def undo():
+      varz.VarzMetric.__call__ = orig_call
+    return undo
 
   def tick(self, dt):
     """Let dt seconds of virtual time pass: the real LowResolutionTime ticks once a second on the
@@ -362,15 +421,34 @@ class _Rig(object):
     return {'kinds': list(self.kinds), 'srcs': [list(t) for t in self.srcs] or [[0, 0, 0, 0]], 'scale': SCALE}
 
 
+# values in scripts: ints as they are; the boundary values by name (JSON cannot say 0.0 / -0.0 / False apart from 0)
+BIG = 100000      # "very large": 14 of them still sum to < 2^31 / SCALE
+SPECIAL = {'z0': 0, 'zf': 0.0, 'zn': -0.0, 'zb': False, 'f3': 3.0, 'neg': -2, 'negf': -4.0, 'big': BIG, 'bigf': float(BIG)}
+BOUNDARY = ['z0', 'zf', 'zn', 'zb', 'f3', 'neg', 'negf', 'big', 'bigf']
+
+
+def _val(x):
+  return SPECIAL[x] if isinstance(x, str) else x
+
+
 # ------------------------------------------------------------------ direction B: scripts
 def _gen_api(rng, kinds=None, nsrc=None, n=None):
   kinds = kinds or [rng.choice(KINDS) for _ in range(rng.randint(2, 3))]
+  nattr = len(kinds)
+  if rng.random() < 0.3:          # two or three Varz classes with the same attribute names
+    extra = rng.randint(1, 2)
+    same = rng.random() < 0.7     # ... usually of the same kinds, sometimes another kind behind the same name
+    for _ in range(extra):
+      kinds = kinds + [k if same else rng.choice(KINDS) for k in kinds[:nattr]]
   nsrc = nsrc or rng.randint(3, 4)
   srcs = rng.sample(TUPLE_POOL, nsrc)
   cap = rng.choice([2, 3, 3, 1000])
   n = n or rng.randint(3, 14)
   ops = []
   hot = rng.randrange(nsrc)
+
+  def value(normal):
+    return rng.choice(BOUNDARY) if rng.random() < 0.2 else normal
   for _ in range(n):
     if rng.random() < 0.12:
       ops.append(['agg', rng.choice(SELS)])
@@ -383,21 +461,119 @@ def _gen_api(rng, kinds=None, nsrc=None, n=None):
     if k in ('counter', 'rate', 'aggtimer'):
       amt = rng.choice([1, 1, 2, 3, 5, -1])
       if k == 'aggtimer' and rng.random() < 0.3:
-        ops.append(['measure', m, s, obj, style, rng.randint(1, 4)])
+        ops.append(['measure', m, s, obj, style, rng.randint(0, 4)])
       elif amt == 1 and style != 'recv' and rng.random() < 0.5:
         ops.append(['inc1', m, s, obj, style])
       else:
-        ops.append(['inc', m, s, obj, style, amt])
+        ops.append(['inc', m, s, obj, style, value(amt)])
     elif k == 'gauge':
-      ops.append(['set', m, s, obj, style, rng.randint(1, 9)])
+      if style == 'cls' and rng.random() < 0.1:
+        ops.append(['inc1', m, s, obj, style])
+      else:
+        ops.append(['set', m, s, obj, style, value(rng.randint(1, 9))])
     else:
       if k == 'timer' and rng.random() < 0.3:
-        ops.append(['measure', m, s, obj, style, rng.randint(1, 4)])
+        ops.append(['measure', m, s, obj, style, rng.randint(0, 4)])
       else:
-        ops.append(['sample', m, s, obj, style, rng.randint(1, 9), rng.choice([0.05, 0.5, 0.95])])
+        ops.append(['sample', m, s, obj, style, value(rng.randint(1, 9)), rng.choice([0.05, 0.5, 0.95])])
   for sel in rng.sample(SELS, 2) + ['tuple']:
     ops.append(['agg', sel])
-  return {'mode': 'api', 'kinds': kinds, 'srcs': srcs, 'cap': cap, 'ops': ops}
+  return {'mode': 'api', 'kinds': kinds, 'nattr': nattr, 'srcs': srcs, 'cap': cap, 'ops': ops}
+
+
+def _boundary_systematic():
+  """Zero (0, 0.0, -0.0, False) and the other boundary values (negative, large, float-typed integers) as
+  increment / gauge value / sample on every recording path: the static receiver call, the class-level form
+  with a source, the bound holder, and the forms that give no amount (default 1) or measure no time.
+  One source gets the boundary value first and an ordinary value after, a second one the other way round,
+  each from a fresh equal Source; aggregated after each half."""
+  out = []
+  for k in KINDS:
+    e = 'inc' if k in ('counter', 'rate', 'aggtimer') else ('set' if k == 'gauge' else 'sample')
+
+    def op(si, o, style, v):
+      return [e, 0, si, o, style, v] + ([0.05] if e == 'sample' else [])
+    for style in ('recv', 'cls', 'inst'):
+      other = {'recv': 'inst', 'cls': 'inst', 'inst': 'cls'}[style]
+      for v in BOUNDARY:
+        ops = [op(0, 'fresh', style, v), op(1, 'same', other, 4), ['agg', 'tuple'],
+               op(0, 'fresh', other, 6), op(1, 'fresh', style, v), ['agg', 'tuple'], ['agg', 'default']]
+        out.append({'mode': 'api', 'kinds': [k], 'srcs': [TUPLE_POOL[0], TUPLE_POOL[2]], 'cap': 1000, 'ops': ops})
+    # no amount given / nothing measured
+    for style in ('cls', 'inst'):
+      ops = []
+      if style == 'cls' or e == 'inc':
+        ops += [['inc1', 0, 0, 'fresh', style], op(0, 'same', 'inst', 3), ['inc1', 0, 0, 'fresh', style]]
+      if k in ('timer', 'aggtimer'):
+        ops += [['measure', 0, 1, 'fresh', style, 0], ['measure', 0, 1, 'same', style, 2], ['measure', 0, 1, 'fresh', style, 0]]
+      if ops:
+        ops += [['agg', 'tuple'], ['agg', 'default']]
+        out.append({'mode': 'api', 'kinds': [k], 'srcs': [TUPLE_POOL[0], TUPLE_POOL[2]], 'cap': 1000, 'ops': ops})
+  return out
+
+
+def _family_systematic():
+  """Two (three) Varz classes that share their attribute names and differ in _VARZ_BASE_NAME -- as the
+  transport sinks, the http sink and the socket wrapper of the library do -- with holders built from equal
+  and from different sources in every order, recording through bound holders and the class-level form.
+  Every recording is judged under the full metric name of the class it was made through."""
+  out = []
+  A, B, C = 0, 1, 2                    # families; with one attribute per family the metric index is the family
+  pats = [
+    [(A, 0, 'same', 'inst'), (B, 0, 'same', 'inst'), (A, 0, 'same', 'inst'), (B, 0, 'same', 'inst')],
+    [(B, 0, 'same', 'inst'), (A, 0, 'same', 'inst'), (B, 0, 'same', 'inst')],
+    [(A, 0, 'same', 'inst'), (B, 0, 'fresh', 'inst'), (B, 0, 'fresh', 'inst'), (A, 0, 'fresh', 'inst')],
+    [(A, 0, 'fresh', 'inst'), (B, 1, 'fresh', 'inst'), (B, 0, 'fresh', 'inst'), (A, 1, 'fresh', 'inst')],
+    [(A, 0, 'same', 'cls'), (B, 0, 'same', 'inst'), (A, 0, 'same', 'inst'), (B, 0, 'fresh', 'cls')],
+    [(B, 0, 'fresh', 'recv'), (B, 0, 'same', 'inst'), (A, 0, 'same', 'inst'), (A, 0, 'fresh', 'recv')],
+    [(A, 0, 'same', 'inst'), (B, 0, 'same', 'inst'), (C, 0, 'same', 'inst'), (B, 0, 'reuse', 'inst'), (C, 0, 'fresh', 'inst')],
+    [(C, 1, 'same', 'inst'), (A, 1, 'fresh', 'inst'), (B, 0, 'same', 'inst'), (A, 0, 'same', 'inst'), (C, 0, 'fresh', 'inst')],
+  ]
+  kindsets = [[k, k, k] for k in KINDS] + [['counter', 'gauge', 'rate'], ['gauge', 'counter', 'gauge'],
+                                           ['timer', 'avgrate', 'timer'], ['rate', 'aggtimer', 'counter']]
+  for ks in kindsets:
+    for pi, pat in enumerate(pats):
+      nf = 3 if any(p[0] == C for p in pat) else 2
+      ops = []
+      for j, (f, si, o, style) in enumerate(pat):
+        k = ks[f]
+        v = 2 + 3 * j + f
+        if k in ('counter', 'rate', 'aggtimer'):
+          ops.append(['inc', f, si, o, style, v])
+        elif k == 'gauge':
+          ops.append(['set', f, si, o, style, v])
+        else:
+          ops.append(['sample', f, si, o, style, v, 0.05])
+        if j == 1:
+          ops.append(['agg', 'default'])
+      ops += [['agg', 'tuple'], ['agg', 'default']]
+      out.append({'mode': 'api', 'kinds': ks[:nf], 'nattr': 1, 'srcs': [TUPLE_POOL[pi % 4], TUPLE_POOL[(pi + 1) % 4]],
+                  'cap': 1000, 'ops': ops})
+  return out
+
+
+def _gen_lib(rng):
+  """The Varz classes of the library itself (every VarzBase subclass found after importing the scales
+  modules: transport sinks, http sink, socket wrapper, pools, balancers, dispatcher, ...).  The script
+  names classes, attributes and values by numbers that the driver resolves against what it finds; most
+  picks go to attribute names that several classes share."""
+  nsrc = rng.randint(1, 2)
+  ops = []
+  pair = [rng.randrange(1000), rng.randrange(1000)]      # two classes that share attribute names
+  attr = rng.randrange(1000)
+  for _ in range(rng.randint(4, 10)):
+    if rng.random() < 0.7:
+      c, a = rng.choice(pair), attr if rng.random() < 0.7 else rng.randrange(1000)
+      shared = 1
+    else:
+      c, a, shared = rng.randrange(1000), rng.randrange(1000), 0
+    v = rng.choice(BOUNDARY) if rng.random() < 0.15 else rng.randint(1, 9)
+    ops.append(['rec', shared, c, a, rng.randrange(nsrc), rng.choice(['same', 'same', 'fresh']),
+                rng.choice(['inst', 'inst', 'cls']), v])
+    if rng.random() < 0.15:
+      ops.append(['agg', rng.choice(['default', 'tuple'])])
+  ops += [['agg', 'tuple'], ['agg', 'default']]
+  return {'mode': 'lib', 'cap': rng.choice([3, 1000]), 'srcs': rng.sample(TUPLE_POOL[:4], nsrc), 'ops': ops}
 
 
 def _systematic():
@@ -577,7 +753,7 @@ def _gen_sock(rng):
       elif r < 0.55:
         ops.append(['close', w])
       elif r < 0.8:
-        ops.append([rng.choice(['read', 'write']), w, rng.randint(1, 9)])
+        ops.append([rng.choice(['read', 'write']), w, rng.randint(0, 9)])
       elif n < 3:
         ops.append(['new', n, rng.choice([1, 1, 2])])
         n += 1
@@ -621,8 +797,8 @@ def _scale_cases(tier, rng):
 
 def cases(prop, tier, seed):
   rng = random.Random(1000003 * int(seed) + 18)
-  out = _systematic() + _interleaved()
-  n_api, n_e2e, n_timed, n_sock = (550, 180, 250, 100) if tier == 'quick' else (8000, 1500, 4000, 1500)
+  out = _systematic() + _interleaved() + _boundary_systematic() + _family_systematic()
+  n_api, n_e2e, n_timed, n_sock, n_lib = (380, 140, 170, 70, 40) if tier == 'quick' else (8000, 1500, 4000, 1500, 1200)
   for _ in range(n_api):
     out.append(_gen_api(rng))
   for _ in range(n_e2e):
@@ -633,6 +809,8 @@ def cases(prop, tier, seed):
     out.append(_gen_timed(rng2))
   for _ in range(n_sock):
     out.append(_gen_sock(rng2))
+  for _ in range(n_lib):
+    out.append(_gen_lib(rng2))
   out += _scale_cases(tier, rng2)
   return out
 
@@ -644,13 +822,19 @@ def _run_api(script):
   rig = _Rig(loop, script['cap'])
   VR = rig.VR
   kinds = script['kinds']
-  names = ['verif.t.m%d' % i for i in range(len(kinds))]
+  # several Varz classes ("families"): metric i is attribute m<i % nattr> of family i // nattr, so the families
+  # share their attribute names and differ in _VARZ_BASE_NAME (and possibly in the kind behind a name)
+  nattr = script.get('nattr') or len(kinds)
+  nfam = len(kinds) // nattr
+  base = ['verif.t' if f == 0 else 'verif.t%d' % f for f in range(nfam)]
+  names = ['%s.m%d' % (base[i // nattr], i % nattr) for i in range(len(kinds))]
   cls_of = {'counter': varz.Counter, 'rate': varz.Rate, 'gauge': varz.Gauge, 'timer': varz.AverageTimer,
             'avgrate': varz.AverageRate, 'aggtimer': varz.AggregateTimer}
-
-  class V(varz.VarzBase):
-    _VARZ_BASE_NAME = 'verif.t'
-    _VARZ = dict(('m%d' % i, cls_of[k]) for i, k in enumerate(kinds))
+  fams = []
+  for f in range(nfam):
+    fams.append(varz.VarzMeta('V%d' % f, (varz.VarzBase,), {
+      '_VARZ_BASE_NAME': base[f],
+      '_VARZ': dict(('m%d' % a, cls_of[kinds[f * nattr + a]]) for a in range(nattr))}))
   for nm in names:
     rig.metric_id(nm)
   canon = {}
@@ -679,14 +863,15 @@ def _run_api(script):
       rig.tick(op[1])
       continue
     m, si, omode, style = op[1], op[2], op[3], op[4]
-    name = names[m]
-    attr = 'm%d' % m
+    name = names[m]               # the metric the recording is for: <base name of the class>.<attribute>
+    attr = 'm%d' % (m % nattr)
+    V = fams[m // nattr]
     src = pick(si, omode)
     kind = kinds[m]
     evname = 'Inc' if kind in ('counter', 'rate', 'aggtimer') else ('Set' if kind == 'gauge' else 'Sample')
 
     def metric_inst():
-      key = id(src)
+      key = (m // nattr, id(src))   # one holder per (Varz class, Source object), made at its first use
       if key not in inst:
         inst[key] = V(src)
       return getattr(inst[key], attr)
@@ -705,32 +890,39 @@ def _run_api(script):
         raise RuntimeError('virtual clock did not advance by %r' % d)
       rig.log_update(evname, name, src, d, pre=pre)
       continue
-    if k == 'inc1':
-      if style == 'inst':
-        metric_inst()()
-      else:
-        getattr(V, attr)(src)
-      rig.log_update('Inc', name, src, 1)
+    if k == 'inc1':               # no amount given: the documented default of 1
+      pre = rig.series_state(name, src)
+      try:
+        if style == 'inst':
+          metric_inst()()
+        else:
+          getattr(V, attr)(src)
+      except Exception:           # a recording that raises is a recording that was lost (the oracle decides)
+        rig.raised_rec += 1
+      rig.log_update(evname, name, src, 1, pre=pre)
       continue
-    val = op[5]
+    val = _val(op[5])
     if k == 'sample':
       rig.rand.append(op[6])
     pre = rig.series_state(name, src)
-    if style == 'recv':
-      if k == 'inc':
-        VR.IncrementVarz(src, name, val)
-      elif k == 'set':
-        VR.SetVarz(src, name, val)
+    try:
+      if style == 'recv':
+        if k == 'inc':
+          VR.IncrementVarz(src, name, val)
+        elif k == 'set':
+          VR.SetVarz(src, name, val)
+        else:
+          VR.RecordPercentileSample(src, name, val)
+      elif style == 'cls':
+        getattr(V, attr)(src, val)
       else:
-        VR.RecordPercentileSample(src, name, val)
-    elif style == 'cls':
-      getattr(V, attr)(src, val)
-    else:
-      metric_inst()(val)
+        metric_inst()(val)
+    except Exception:
+      rig.raised_rec += 1
     rig.log_update(evname, name, src, val, pre=pre)
     del rig.rand[:]
   return {'cfg': rig.cfg(), 'ev': rig.ev, 'meta': {'errors': [str(e[1:3]) for e in loop.errors][:3],
-                                                    'aggregate_raised': rig.raised}}
+                                                    'aggregate_raised': rig.raised, 'recordings_raised': rig.raised_rec}}
 
 
 def _run_e2e(script):
@@ -740,22 +932,28 @@ def _run_e2e(script):
   rig = _Rig(loop, script['cap'])
   VR = rig.VR
   rig.rand = list(script['rand'])
-  # observe recordings at the VarzReceiver boundary; the dispatcher's metrics bind these at class creation
+  # recordings are observed where the dispatcher makes them, at the call of its (class-level) metric objects;
+  # the VarzReceiver boundary (bound by the dispatcher's metrics at class creation) catches anything recorded
+  # without a metric object
+  rig.observe_metric_calls()
   orig_inc, orig_set = VR.IncrementVarz, VR.SetVarz
   orig_rec = VR.RecordPercentileSample.__func__
 
   def inc(source, metric, amount=1):
     orig_inc(source, metric, amount)
-    rig.log_update('Inc', metric, source, amount)
+    if not rig.in_metric_call:
+      rig.log_update('Inc', metric, source, amount)
 
   def set_(source, metric, value):
     orig_set(source, metric, value)
-    rig.log_update('Set', metric, source, value)
+    if not rig.in_metric_call:
+      rig.log_update('Set', metric, source, value)
 
   def rec(cls, source, metric, value):
     pre = rig.series_state(metric, source)
     orig_rec(cls, source, metric, value)
-    rig.log_update('Sample', metric, source, value, pre=pre)
+    if not rig.in_metric_call:
+      rig.log_update('Sample', metric, source, value, pre=pre)
   VR.IncrementVarz = staticmethod(inc)
   VR.SetVarz = staticmethod(set_)
   VR.RecordPercentileSample = classmethod(rec)
@@ -901,28 +1099,7 @@ def _run_sock(script):
   import gevent
   from scales import varz
   rig = _Rig(loop, script['cap'])
-  orig_call = varz.VarzMetric.__call__
-  depth = [0]
-
-  def call(self_, *args):
-    if depth[0]:
-      return orig_call(self_, *args)
-    src = getattr(self_, '_source', None)
-    name = self_._metric
-    if src is not None:
-      val = args[0] if args else 1
-    else:
-      src, val = args[0], (args[1] if len(args) > 1 else 1)
-    kind = rig.kind_of_type(type(self_).VARZ_TYPE)
-    evname = 'Inc' if kind in ('counter', 'rate', 'aggtimer') else ('Set' if kind == 'gauge' else 'Sample')
-    pre = rig.series_state(name, src)
-    depth[0] += 1
-    try:
-      orig_call(self_, *args)
-    finally:
-      depth[0] -= 1
-    rig.log_update(evname, name, src, val, pre=pre)
-  varz.VarzMetric.__call__ = call
+  undo = rig.observe_metric_calls()
 
   class Handle(object):
     def sendall(self, buff):
@@ -979,9 +1156,87 @@ def _run_sock(script):
       elif k == 'write':
         if w.isOpen():
           w.write(b'y' * op[2])
-  varz.VarzMetric.__call__ = orig_call
+  undo()
   return {'cfg': rig.cfg(), 'ev': rig.ev, 'meta': {'errors': [str(e[1:3]) for e in loop.errors][:3],
                                                     'aggregate_raised': rig.raised}}
+
+
+def _lib_classes(varz):
+  """Every VarzBase subclass of the library, by full base name."""
+  import importlib
+  for mod in ('scales.dispatch', 'scales.sink', 'scales.resurrector', 'scales.pool.watermark', 'scales.loadbalancer.heap',
+              'scales.loadbalancer.aperture', 'scales.thrift.sink', 'scales.mux.sink', 'scales.thriftmux.sink',
+              'scales.http.sink', 'scales.redis.sink', 'scales.kafka.sink'):
+    try:
+      importlib.import_module(mod)
+    except Exception:       # an optional dependency is missing: that family is not exercised
+      pass
+  found, todo = {}, [varz.VarzBase]
+  while todo:
+    c = todo.pop()
+    for sub in c.__subclasses__():
+      todo.append(sub)
+      if getattr(sub, '_VARZ_BASE_NAME', None) and getattr(sub, '_VARZ', None):
+        found[sub._VARZ_BASE_NAME] = sub
+  return [found[k] for k in sorted(found)]
+
+
+def _run_lib(script):
+  loop = common.boot()
+  from scales import varz
+  rig = _Rig(loop, script['cap'])
+  classes = _lib_classes(varz)
+  if len(classes) < 2:
+    raise RuntimeError('found %d Varz classes in the library' % len(classes))
+  owners = {}
+  for c in classes:
+    for a in c._VARZ:
+      owners.setdefault(a, []).append(c)
+  shared = sorted(a for a, cs in owners.items() if len(cs) > 1)
+  canon, inst = {}, {}
+
+  def pick(si, mode):
+    if mode == 'same':
+      if si not in canon:
+        canon[si] = rig.make_source(script['srcs'][si])
+      return canon[si]
+    return rig.make_source(script['srcs'][si])
+
+  for op in script['ops']:
+    if op[0] == 'agg':
+      rig.aggregate(op[1])
+      continue
+    _, sh, ci, ai, si, omode, style, v = op
+    if sh and shared:
+      attr = shared[ai % len(shared)]
+      cs = owners[attr]
+      cls = cs[ci % len(cs)]
+    else:
+      cls = classes[ci % len(classes)]
+      attrs = sorted(cls._VARZ)
+      attr = attrs[ai % len(attrs)]
+    name = '%s.%s' % (cls._VARZ_BASE_NAME, attr)      # the metric this recording is for
+    kind = rig.kind_of_type(cls._VARZ[attr].VARZ_TYPE)
+    evname = 'Inc' if kind in ('counter', 'rate', 'aggtimer') else ('Set' if kind == 'gauge' else 'Sample')
+    src = pick(si, omode)
+    val = _val(v)
+    rig.metric_id(name)
+    pre = rig.series_state(name, src)
+    try:
+      if style == 'cls':
+        getattr(cls, attr)(src, val)
+      else:
+        key = (cls._VARZ_BASE_NAME, id(src))
+        if key not in inst:
+          inst[key] = cls(src)
+        getattr(inst[key], attr)(val)
+    except Exception:
+      rig.raised_rec += 1
+    rig.log_update(evname, name, src, val, pre=pre)
+  return {'cfg': rig.cfg(), 'ev': rig.ev, 'meta': {'errors': [str(e[1:3]) for e in loop.errors][:3],
+                                                    'aggregate_raised': rig.raised, 'recordings_raised': rig.raised_rec,
+                                                    'lib_classes': len(classes),
+                                                    'shared_attribute_names': len(shared)}}
 
 
 def run_case(script):
@@ -995,6 +1250,8 @@ def run_case(script):
     return _run_scale(script)
   if mode == 'sock':
     return _run_sock(script)
+  if mode == 'lib':
+    return _run_lib(script)
   return _run_api(script)
 
 
@@ -1258,7 +1515,7 @@ def replay_behaviours(prop, tier, seed):
     raise RuntimeError('probe failed: ' + probe['err'])
   eq = probe['ok']['eq']
   cfg = 'Varz_sim_eq.cfg' if eq else 'Varz_sim_noeq.cfg'
-  num = 220 if tier == 'quick' else 2000
+  num = 180 if tier == 'quick' else 2000
   r, behs = tlc.simulate_behaviours('Varz', cfg, num=num, depth=22, seed=int(seed) + 1, timeout=900)
   if not behs:
     raise RuntimeError('no behaviours from TLC simulate:\n' + r.stdout[-2000:])
@@ -1268,7 +1525,7 @@ def replay_behaviours(prop, tier, seed):
   aged = 0
   if eq:
     # behaviours with the clock: one model unit = MAX_AGG_AGE / MaxAge = 150 s of the real low-resolution clock
-    r2, behs2 = tlc.simulate_behaviours('Varz', 'Varz_sim_age.cfg', num=(80 if tier == 'quick' else 1200), depth=24,
+    r2, behs2 = tlc.simulate_behaviours('Varz', 'Varz_sim_age.cfg', num=(60 if tier == 'quick' else 1200), depth=24,
                                         seed=int(seed) + 7, timeout=900)
     if not behs2:
       raise RuntimeError('no behaviours from TLC simulate (age):\n' + r2.stdout[-2000:])
@@ -1301,6 +1558,11 @@ def extra_coverage(prop, tier, traces):
       kinds[k] = kinds.get(k, 0) + 1
   e2e = sum(1 for t in traces if (t.get('script') or {}).get('mode') == 'e2e')
   raised = sum((t.get('meta') or {}).get('aggregate_raised', 0) for t in traces)
+  rec_raised = sum((t.get('meta') or {}).get('recordings_raised', 0) for t in traces)
+  fam = sum(1 for t in traces if (t.get('script') or {}).get('nattr') and
+            len(t['script']['kinds']) > t['script']['nattr'])
+  lib = [t for t in traces if (t.get('script') or {}).get('mode') == 'lib']
+  zero = sum(1 for t in traces for e in t['ev'] if e.get('amt', e.get('v', 1)) == 0 and e['e'] in ('Inc', 'Set', 'Sample'))
   idle = resumed = stale = 0
   big = []
   for t in traces:
@@ -1324,7 +1586,10 @@ def extra_coverage(prop, tier, traces):
     if len(t['cfg']['srcs']) >= 1000:
       big.append(len(t['cfg']['srcs']))
   return {'metric_kinds_exercised': kinds, 'dispatcher_end_to_end_runs': e2e,
-          'aggregate_calls_that_raised': raised,
+          'aggregate_calls_that_raised': raised, 'recording_calls_that_raised': rec_raised,
+          'traces_with_several_Varz_classes_sharing_attribute_names': fam + len(lib),
+          'library_Varz_classes_found': max([(t.get('meta') or {}).get('lib_classes', 0) for t in lib] or [0]),
+          'recordings_of_a_zero_value': zero,
           'traces_with_a_sample_after_an_idle_window_of_MAX_AGG_AGE_or_more': idle,
           'samples_by_a_reused_object_after_such_a_window_with_an_aggregation_pass_inside': resumed,
           'aggregate_entries_folded_from_no_series_(all_reservoirs_stale)': stale,
